@@ -424,6 +424,11 @@ class Gen:
         if r.random() < 0.5:
             geo = GeoTransformation("+proj=utm +zone=32 +ellps=WGS84", self.f(-1000, 1000), self.f(-1000, 1000),
                                     self.f(-3, 3), self.pos_f(0.5, 2))
+            k = r.random()
+            if k < 0.2:      # the constructor's defaults: no additional transformation (0, 0, 0, 1)
+                geo = GeoTransformation("+proj=utm +zone=32 +ellps=WGS84")
+            elif k < 0.35:   # ... or the same values as the reader produces them
+                geo = GeoTransformation("+proj=utm +zone=32 +ellps=WGS84", 0.0, 0.0, 0.0, 1.0)
         if r.random() < 0.5:
             env = Environment(Time(r.randint(0, 23), r.randint(0, 59)),
                               self.enum_in(TimeOfDay, "timeOfDay", exclude=(TimeOfDay.UNKNOWN,)),
